@@ -1,5 +1,5 @@
 (* C08 — Resizing a region equals slicing its spliced sequence. *)
-From GTS Require Import Base Arith Loc LocParse Region Seq Select Locator RegionProofs ResizeProofs ModParse ModRT LocatorProofs.
+From GTS Require Import Base Arith Loc LocParse Region Seq Select Locator RegionProofs ResizeProofs ExtendProofs ModParse ModRT LocatorProofs.
 Open Scope Z_scope.
 
 (* resizing commutes with strand mirroring *)
@@ -34,6 +34,52 @@ Theorem C08_resize_slice : forall r m, rwf r ->
     (forall n, rin n r -> rin n r').
 Proof. exact region_resize_slice. Qed.
 Print Assumptions C08_resize_slice.
+
+(* offsets outside extend the first/last segment outward.  eden r j is residue j
+   of r continued without end in both directions.  For EVERY modifier (no
+   condition on its offsets) Region.Resize succeeds and the result denotes
+   exactly positions [lo,hi) of that continuation; the three theorems after it
+   say what the continuation is: inside [0,len) the residues of the region
+   itself (so C08_resize_slice is the special case), before 0 the first
+   segment continued outward, from len on the last segment continued outward,
+   each in the direction of its own strand.  A first/last segment of length 0
+   counts as forward (Segment.Resize tests tail < head), and it is the first or
+   last SEGMENT that is continued even when it holds no residue.
+   The model computes in unbounded Z; the Go code agrees as long as no int
+   overflows, i.e. offsets below 2^62 in magnitude on rwf coordinates. *)
+Theorem C08_resize_any_offsets : forall r m, rwf r ->
+  exists r', region_resize r m = Ok r' /\
+    region_den r' = map (eden r) (zrange (fst (mod_bounds m (region_len r))) (snd (mod_bounds m (region_len r)))).
+Proof. exact region_resize_ext. Qed.
+Print Assumptions C08_resize_any_offsets.
+
+Theorem C08_continuation_inside : forall r lo hi, rwf r -> 0 <= lo -> hi <= region_len r ->
+  map (eden r) (zrange lo hi) = lslice lo hi (region_den r).
+Proof. exact eden_inside. Qed.
+Print Assumptions C08_continuation_inside.
+
+Theorem C08_continuation_before : forall r, rwf r -> forall j, j < 0 ->
+  eden r j = (let '(h, t) := first_seg r in if t <? h then (h - 1 - j, true) else (h + j, false)).
+Proof. exact eden_before. Qed.
+Print Assumptions C08_continuation_before.
+
+Theorem C08_continuation_after : forall r, rwf r -> forall j, region_len r <= j ->
+  eden r j = (let '(h, t) := last_seg r in
+              if t <? h then (t - 1 - (j - region_len r), true) else (t + (j - region_len r), false)).
+Proof. exact eden_after. Qed.
+Print Assumptions C08_continuation_after.
+
+(* a forward exon, a one-base exon and a reverse-strand exon, opened by two
+   residues at the 5' end and three at the 3' end: the forward first segment
+   grows downwards, the reverse last segment grows downwards too (its 3' end) *)
+Example C08_outside_example :
+  let r := Regs [Seg 3 6; Seg 9 10; Seg 17 13] in
+  rwf r /\ mod_bounds (MHeadTail (-2) 3) (region_len r) = (-2, 11) /\
+  region_resize r (MHeadTail (-2) 3) = Ok (Regs [Seg 1 6; Seg 9 10; Seg 17 10]) /\
+  map (eden r) (zrange (-2) 11) =
+    [(1, false); (2, false); (3, false); (4, false); (5, false); (9, false);
+     (16, true); (15, true); (14, true); (13, true); (12, true); (11, true); (10, true)].
+Proof. vm_compute. repeat split; try discriminate; try (intros H; discriminate H). Qed.
 
 (* Region.Locate on a sequence without features reads exactly region_den:
    p[x] for a forward position, the complement of p[x] for a reverse one *)
